@@ -28,6 +28,7 @@ WITNESS = {
     "entropy": "entropy", "kl_divergence": "entropy", "cross_entropy": "entropy",
     "cov": "cov", "pearson_correlation": "cov",
     "weighted_var_axis": "moments", "weighted_std_axis": "moments",
+    "central_moment_coefficients": "moments",
     "central_moment": "moments", "central_moments": "moments", "kurtosis": "moments", "skewness": "moments",
 }
 
@@ -228,16 +229,16 @@ PROPS.update({
     },
     "C07": {
         "level": "exploration",
-        "level_text": "two parts. (1) Formula, proved: under the exact-arithmetic reading A-REAL, Verus discharges on the extracted bodies of inner_weighted_var (West's one-pass recurrence: loop invariant mean*W == sum w x, S == sum w x^2 - mean^2 W, every algebraic step by proved ring lemmas), weighted_var, weighted_std, moments, central_moment, central_moments, horner_method, kurtosis, skewness, weighted_var_axis and weighted_std_axis that for non-negative weights of positive total weight weighted_var == sum w (x - xbar_w)^2 / (sum w - ddof) >= 0 and weighted_std its square root, that central_moment(p) == (1/n) sum (x - xbar)^p for every order, exactly one for order 0 and exactly zero for order 1, central_moments(p)[k] == central_moment(k), kurtosis == mu4/mu2^2, skewness == mu3/sqrt(mu2)^3, Horner's loop evaluates c0 + c1 z + ..., the per-axis forms return one entry per lane along the axis, each equal to the whole-array formula applied to that lane with the same weights (map_axis: assumed contract), and the EmptyInput / shape checks. (2) Forward error, bounded: the real crate is compared on f64 inputs with the definition evaluated in exact rational arithmetic, within the forward-error bounds stated in the enumeration (West: 8(n+2)u(S + sqrt(S W)|xbar|)/|W - ddof|; central moments: 8(n+p)p u (1/n)sum(|x - xbar| + delta)^p), including zero weights, ddof in {0, .5, 1}, data with a large mean relative to its spread, orders 0..8, shapes up to 3-D in 5 layouts, and the per-axis forms lane by lane bit for bit",
-        "level_note": "NOT counted as proof of the property: rounding is not modelled (A-REAL). trusted: A-ND n-D (iter/zip in logical order, mean, sum, map, mapv), vstd's specs of the generic operators, central_moment_coefficients (an IterBinomial/zip/map/collect chain outside Verus: its contract is read off the body, the function is exercised by enum:moments), R15 costs the precondition order < 65535 for central_moments. f32: not run. bounded: enum:moments as described in its bound string",
+        "level_text": "two parts. (1) Formula, proved: under the exact-arithmetic reading A-REAL, Verus discharges on the extracted bodies of inner_weighted_var (West's one-pass recurrence: loop invariant mean*W == sum w x, S == sum w x^2 - mean^2 W, every algebraic step by proved ring lemmas), weighted_var, weighted_std, moments, central_moment_coefficients, central_moment, central_moments, horner_method, kurtosis, skewness, weighted_var_axis and weighted_std_axis that for non-negative weights of positive total weight weighted_var == sum w (x - xbar_w)^2 / (sum w - ddof) >= 0 and weighted_std its square root, that central_moment(p) == (1/n) sum (x - xbar)^p for every order, exactly one for order 0 and exactly zero for order 1, central_moments(p)[k] == central_moment(k), kurtosis == mu4/mu2^2, skewness == mu3/sqrt(mu2)^3, Horner's loop evaluates c0 + c1 z + ..., the per-axis forms return one entry per lane along the axis, each equal to the whole-array formula applied to that lane with the same weights (map_axis: assumed contract), and the EmptyInput / shape checks. (2) Forward error, bounded: the real crate is compared on f64 inputs with the definition evaluated in exact rational arithmetic, within the forward-error bounds stated in the enumeration (West: 8(n+2)u(S + sqrt(S W)|xbar|)/|W - ddof|; central moments: 8(n+p)p u (1/n)sum(|x - xbar| + delta)^p), including zero weights, ddof in {0, .5, 1}, data with a large mean relative to its spread, orders 0..8, shapes up to 3-D in 5 layouts, and the per-axis forms lane by lane bit for bit",
+        "level_note": "NOT counted as proof of the property: rounding is not modelled (A-REAL). trusted: A-ND n-D (iter/zip in logical order, mean, sum, map, mapv), vstd's specs of the generic operators, A-ITER (iterator adaptor chains as vectors of their items: IterBinomial::new, zip, rev, map, collect - shim/iterchain.rs), R15 costs the precondition order < 65535 for central_moments. f32: not run. bounded: enum:moments as described in its bound string",
         "technique": "Verus contracts in exact (real) arithmetic on the extracted variance / moment routines (West loop invariant, ring lemmas) + bounded comparison of the real crate with an exact rational oracle under stated forward-error bounds",
         "design_ref": "DESIGN.md 8d (C07)",
         "verus": [("moments", "N")],
         "kani": {"complete": [], "bounded_quick": ["bounded_cm_coefficients_len1", "bounded_cm_coefficients_len2", "bounded_cm_coefficients_len3", "bounded_cm_coefficients_len4", "bounded_cm_coefficients_len5", "bounded_horner_len0_1"], "bounded_thorough": [],
-                 "bound": "central_moment_coefficients (the function Verus takes with an assumed contract) on every content of an f64 slice of length 1..5 (orders 0..4), NaN and infinities included: coefficient k is bit for bit C(len-1, k) * moments[len-1-k]; horner_method on 0 and 1 coefficients (more symbolic double multiplications do not finish in CBMC)"},
+                 "bound": "central_moment_coefficients (verified by Verus in exact arithmetic over the iterator shim) as compiled, on every content of an f64 slice of length 1..5 (orders 0..4), NaN and infinities included: coefficient k is bit for bit C(len-1, k) * moments[len-1-k]; horner_method on 0 and 1 coefficients (more symbolic double multiplications do not finish in CBMC)"},
         "enum": [{"name": "moments"}],
-        "assumptions": [A_REAL, A_VERUS, A_EXTRACT, A_ENUM, "A-ND (n-D) iter/zip/mean/sum/map/mapv as stated in shim/realnum.rs", "central_moment_coefficients: assumed contract (iterator chain outside Verus), checked bounded by Kani (orders 0..4, every f64 content) and by enum:moments"],
-        "assumed_repo_fns": ["src/summary_statistics/means.rs central_moment_coefficients: assumed contract in units/moments.tpl.rs (iterator chain), exercised by enum:moments"],
+        "assumptions": [A_REAL, A_VERUS, A_EXTRACT, A_ENUM, "A-ND (n-D) iter/zip/mean/sum/map/mapv as stated in shim/realnum.rs", "A-ITER: std / num_integer iterator adaptors (IterBinomial::new, iter, rev, zip, map, collect) behave as the vectors of their items stated in shim/iterchain.rs"],
+        "assumed_repo_fns": [],
         "not_decided": ["the forward-error bound for inputs outside the enumerated ones; f32; weights of mixed sign (the property's sign guarantee is for non-negative weights)"],
         "rule": "one case per (shape, data, weights, ddof) or (shape, data) x layouts; non-trivial = at least 2 elements (and positive total weight for the variance)",
     },
